@@ -176,3 +176,16 @@ TEXTS["C01"] = {
     "note": TB + " PARTIAL: goroutine interleavings are exercised, not enumerated; the parallel executor type is not registered in this build and is not covered; XVM/EVM transactions are outside the op language; wall-clock time does not reach the compared outputs (timestamps are inputs).",
     "technique": "Lean 4 table theorems (decide +kernel over the regenerated map-range inventory) + functional model + replica/restart differential correspondence",
 }
+
+TEXTS["C15"] = {
+    "text": "Proved on the model of MakeStrategyDecision and of Governance.Vote / setVote / countVote / endProposal for every proposal state, voter, ballot and strategy expression of the modelled fragment: an accepted vote comes from an "
+            "available governance admin of the electorate frozen at submission who has no ballot yet, adds exactly that ballot and keeps the invariant tallies = ballot counts, one ballot per voter (C15_one_vote_per_admin); every refusal "
+            "(non-admin, outside the electorate, second ballot, closed proposal, garbage ballot) returns no proposal (C15_refusals); approval only when the recorded expression holds on the tallies (C15_approved_only_if_rule); rejection by the "
+            "tally only when it fails on the tallies and at the maximal reachable approvals (C15_rejected_only_if_unreachable, with the code's unsigned available-minus-rejections); a special proposal stays open without a super admin's ballot "
+            "(C15_special_needs_super_admin); concluded proposals refuse votes and forced ends (C15_finality); simple majority = more than half (C15_simple_majority). Tie: the decision function is run against repo.MakeStrategyDecision / "
+            "CheckStrategyExpression exhaustively for t <= 6 over 15 expressions; on the real node proposals of seven kinds are created through the manager contracts and voted on by admins, outsiders and candidates (repeated votes, garbage, "
+            "withdrawals), a monitor written from the property text checks every observation, and every vote step is validated against the Lean ballot machine (same pre-state, voter, role answer, ballot -> same post-state or refusal code).",
+    "note": TB + " PARTIAL: proposal creation, priority locks between concurrent proposals on one object, electorate updates (UpdateAvailableElectorateNum) and the effect on the governed object are covered by the monitor on the real node only, "
+            "not by the Lean model; strategy expressions outside the linear-comparison fragment are skipped by the validation; float64 vs exact evaluation coincide only for the coefficients used (integers, .5).",
+    "technique": "Lean 4 theorems over the executable ballot state machine and decision function + exhaustive differential run of the decision function + trace validation of real vote steps + property monitor",
+}
